@@ -51,17 +51,56 @@ def enum_body(src, name):
         out.append((mm.group(1), num(mm.group(2))))
     return out
 
+# the target the checks run on; a cfg predicate outside this vocabulary stops the translator
+TARGET = {"target_os": "linux", "target_arch": "x86_64", "target_family": "unix", "target_pointer_width": "64", "target_endian": "little"}
+
+def cfg_eval(expr, what):
+    """evaluate the argument of #[cfg(..)] for TARGET: all(..) any(..) not(..) key = "value" unix/windows/test/debug_assertions"""
+    toks = re.findall(r'\w+|"[^"]*"|[(),=]', expr)
+    pos = [0]
+    def peek(): return toks[pos[0]] if pos[0] < len(toks) else None
+    def take(t=None):
+        x = peek()
+        if x is None or (t is not None and x != t): die("const %s: cannot parse cfg(%s)" % (what, expr))
+        pos[0] += 1; return x
+    def pred():
+        w = take()
+        if w in ("all", "any", "not"):
+            take("("); args = []
+            while peek() != ")":
+                args.append(pred())
+                if peek() == ",": take(",")
+            take(")")
+            if w == "not":
+                if len(args) != 1: die("const %s: not() with %d arguments" % (what, len(args)))
+                return not args[0]
+            return all(args) if w == "all" else any(args)
+        if peek() == "=":
+            take("="); v = take()
+            if w not in TARGET: die("const %s: cfg key %s is not in the target description of tools/extract.py" % (what, w))
+            return TARGET[w] == v.strip('"')
+        if w in ("unix",): return True
+        if w in ("windows", "test", "miri", "loom"): return False
+        die("const %s: cfg predicate %s is not in the target description of tools/extract.py" % (what, w))
+    r = pred()
+    if pos[0] != len(toks): die("const %s: trailing tokens in cfg(%s)" % (what, expr))
+    return r
+
 def const(src, name):
-    # first non-macos definition
-    ms = list(re.finditer(r"(?:(#\[cfg\([^\n]*\)\])\s*(?://[^\n]*\n\s*)*)?(?:pub\s+)?(?:const|static)\s+" + name + r"\s*:\s*[\w:]+\s*=\s*([^;]+);", src))
+    # every definition of the name, with ALL the attribute / comment lines directly above it; exactly one must apply to TARGET
+    ms = list(re.finditer(r"((?:[ \t]*(?:#\[[^\n]*\]|//[^\n]*)[ \t]*\n)*)[ \t]*(?:pub(?:\([^)]*\))?\s+)?(?:const|static)\s+" + name + r"\s*:\s*[\w:]+\s*=\s*([^;]+);", src))
     if not ms:
         die(f"const {name} not found")
+    live = []
     for m in ms:
-        cfg = m.group(1) or ""
-        if "macos" in cfg and "not(" not in cfg:
-            continue
-        return num(strip_comments(m.group(2)))
-    die(f"const {name}: no applicable definition")
+        cfgs = re.findall(r"#\[cfg\((.*)\)\]", m.group(1))
+        if re.search(r"#\[cfg_attr", m.group(1)):
+            die(f"const {name}: cfg_attr above a definition is not understood")
+        if all(cfg_eval(c, name) for c in cfgs):
+            live.append(m)
+    if len(live) != 1:
+        die(f"const {name}: {len(live)} definitions apply to the target {TARGET['target_os']}/{TARGET['target_arch']} (of {len(ms)}): ambiguous")
+    return num(strip_comments(live[0].group(2)))
 
 TT = ["Stop", "Void", "Bool", "I8", "Double", "I16", "I32", "I64", "Binary", "Struct", "Map", "Set", "List", "Uuid"]
 CT = ["Stop", "BooleanTrue", "BooleanFalse", "Byte", "I16", "I32", "I64", "Double", "Binary", "List", "Set", "Map", "Struct", "Uuid"]
@@ -73,6 +112,25 @@ def coq_tt(n):
 def coq_ct(n):
     if n not in CT: die(f"unknown TCompactType member {n}")
     return "C" + n
+
+def table_arms(text, rx, what, expect=None, or_ok=False):
+    """arms of a match used as a TABLE: every arm of [text] must be matched by rx exactly once -- no guard, no or-pattern
+    (unless the caller splits them), no duplicate left-hand side, and as many arms as the enum has members"""
+    text = strip_comments(text)
+    n_arrows = len(re.findall(r"=>", text))
+    if re.search(r"\bif\b[^,{]*=>", text):
+        die("%s: a guarded arm (`pat if cond =>`) -- the table extraction does not understand guards" % what)
+    arms = re.findall(rx, text)
+    if len(arms) != n_arrows:
+        die("%s: %d arms in the source, %d understood" % (what, n_arrows, len(arms)))
+    if not or_ok and re.search(r"\|", re.sub(r"\|\|", "", text)):
+        die("%s: an or-pattern -- the table extraction keeps one alternative per arm" % what)
+    lhs = [a[0].strip() for a in arms]
+    if len(set(lhs)) != len(lhs):
+        die("%s: duplicate arm %r" % (what, [x for x in lhs if lhs.count(x) > 1][0]))
+    if expect is not None and len(arms) != expect:
+        die("%s: %d arms, expected %d" % (what, len(arms), expect))
+    return arms
 
 def gen_thrift(repo):
     mod = read(repo, "pilota/src/thrift/mod.rs")
@@ -111,7 +169,8 @@ def gen_thrift(repo):
     out.append("Definition mtype_code (t : mtype) : Z :=\n  match t with\n" + "".join(f"  | M{n} => {v}\n" for n, v in mt) + "  end.\n")
     m = re.search(r"impl TryFrom<u8> for TMessageType \{.*?match value \{(.*?)_ =>", mod, flags=re.S)
     if not m: die("TryFrom<u8> for TMessageType not found")
-    arms = re.findall(r"(\S+)\s*=>\s*Ok\(TMessageType::(\w+)\)", m.group(1))
+    arms = table_arms(m.group(1), r"(\S+)\s*=>\s*Ok\(TMessageType::(\w+)\)", "TryFrom<u8> for TMessageType", expect=len(MT))
+    if sorted(n for _, n in arms) != sorted(MT): die("TryFrom<u8> for TMessageType: members %r" % (arms,))
     out.append("Definition mtype_of_code (z : Z) : option mtype :=\n  " + " ".join(f"if z =? {num(a)} then Some M{n} else" for a, n in arms) + " None.\n")
     # compact
     ct = enum_body(compact, "TCompactType")
@@ -119,20 +178,21 @@ def gen_thrift(repo):
     out.append("Definition ctype_code (t : ctype) : Z :=\n  match t with\n" + "".join(f"  | {coq_ct(n)} => {v}\n" for n, v in ct) + "  end.\n")
     m = re.search(r"impl TryFrom<u8> for TCompactType \{.*?match value \{(.*?)_ =>", compact, flags=re.S)
     if not m: die("TryFrom<u8> for TCompactType not found")
-    arms = re.findall(r"(\S+)\s*=>\s*Ok\(TCompactType::(\w+)\)", m.group(1))
-    if len(arms) < 10: die("TryFrom<u8> for TCompactType: too few arms")
+    arms = table_arms(m.group(1), r"(\S+)\s*=>\s*Ok\(TCompactType::(\w+)\)", "TryFrom<u8> for TCompactType", expect=len(CT))
+    if sorted(n for _, n in arms) != sorted(CT): die("TryFrom<u8> for TCompactType: members %r" % (arms,))
     out.append("Definition ctype_of_code (z : Z) : option ctype :=\n  " + "\n  ".join(f"if z =? {num(a)} then Some {coq_ct(n)} else" for a, n in arms) + " None.\n")
     m = re.search(r"impl TryFrom<TType> for TCompactType \{.*?match value \{(.*?)_ =>", compact, flags=re.S)
     if not m: die("TryFrom<TType> for TCompactType not found")
-    arms = re.findall(r"TType::(\w+)\s*=>\s*Ok\(Self::(\w+)\)", m.group(1))
+    arms = table_arms(m.group(1), r"TType::(\w+)\s*=>\s*Ok\(Self::(\w+)\)", "TryFrom<TType> for TCompactType", expect=len(TT) - 1)
     out.append("Definition ctype_of_ttype (t : ttype) : option ctype :=\n  match t with\n" + "".join(f"  | {coq_tt(a)} => Some {coq_ct(b)}\n" for a, b in arms) + "  | _ => None\n  end.\n")
     m = re.search(r"impl TryFrom<TCompactType> for TType \{.*?match value \{(.*?)\n        \}", compact, flags=re.S)
     if not m: die("TryFrom<TCompactType> for TType not found")
-    arms = re.findall(r"((?:TCompactType::\w+\s*\|?\s*)+)=>\s*Ok\((?:Self|TType)::(\w+)\)", m.group(1))
+    arms = table_arms(m.group(1), r"((?:TCompactType::\w+\s*\|?\s*)+)=>\s*Ok\((?:Self|TType)::(\w+)\)", "TryFrom<TCompactType> for TType", or_ok=True)
     lines = []
     seen = set()
     for lhs, rhs in arms:
         for c in re.findall(r"TCompactType::(\w+)", lhs):
+            if c in seen: die("TryFrom<TCompactType> for TType: %s on two arms" % c)
             lines.append(f"  | {coq_ct(c)} => Some {coq_tt(rhs)}\n"); seen.add(c)
     if not seen: die("TryFrom<TCompactType> for TType: no arm found")
     # members the conversion rejects (an Err arm or the catch-all) map to None: the table lemmas then decide
@@ -197,9 +257,12 @@ def strip_rust(src):
 
 def block_span(s, header_re, what):
     """(start line, end line) of the brace block introduced by the first match of header_re"""
-    m = re.search(header_re, s, flags=re.M)
-    if not m:
+    ms = list(re.finditer(header_re, s, flags=re.M))
+    if not ms:
         die("reader site inventory: %s not found" % what)
+    if len(ms) > 1:
+        die("reader site inventory: %s: %d blocks match the header -- a second block would go unscanned" % (what, len(ms)))
+    m = ms[0]
     i = s.find("{", m.end() - 1 if s[m.end() - 1] == "{" else m.end())
     if i < 0:
         die("reader site inventory: %s has no body" % what)
@@ -973,7 +1036,70 @@ def gen_trait_methods(repo):
            ";\n   ".join("(%s,\n    [%s])" % (cq(tr), "; ".join("(%s, %s)" % (cq(n), "true" if r else "false") for n, r in ms)) for tr, ms in tm) + "].", ""]
     return "\n".join(out)
 
-GENERATORS = {"ThriftConsts.v": gen_thrift, "ReaderSites.v": gen_reader_sites, "PrimOps.v": gen_prim_ops, "TraitMethods.v": gen_trait_methods}
+# ---- every fn of the Thrift protocol files (completeness side of the site inventory) ----
+# The site inventory scans an explicit list of blocks (READER_BLOCKS).  So that a NEW helper fn, impl block or macro in
+# these files cannot stay outside it unnoticed, Generated/ThriftFns.v lists every top-level item of every file with the
+# fns it contains and whether the inventory scans it; coq/Thrift/FnsKnown.v pins that list (Proofs/SitesP.v-style
+# comparison by computation: Proofs/FnsP.v, Properties/C09.v C09_fn_inventory).
+THRIFT_FILES = ["mod.rs", "rw_ext.rs", "varint_ext.rs", "binary.rs", "binary_le.rs", "compact.rs", "binary_unsafe.rs"]
+
+def thrift_items(repo):
+    spans_by_file = {}
+    for fn, blocks in READER_BLOCKS:
+        s = strip_rust(read(repo, "pilota/src/thrift/" + fn))
+        if fn == "compact.rs":
+            s = s.split("#[cfg(test)]\nmod tests")[0]
+        spans_by_file[fn] = [block_span(s, hre, "%s: %s" % (fn, label))[:2] for label, hre in blocks]
+    out = []
+    for fn in THRIFT_FILES:
+        s = strip_rust(read(repo, "pilota/src/thrift/" + fn))
+        s = re.split(r"#\[cfg\(test\)\]\s*\n\s*mod \w+", s)[0]
+        spans = spans_by_file.get(fn, [])
+        i, n, depth, start = 0, len(s), 0, 0
+        while i < n:
+            c = s[i]
+            if c == "{":
+                if depth == 0:
+                    hdr_a = start; body_a = i
+                depth += 1
+            elif c == "}":
+                depth -= 1
+                if depth < 0:
+                    die("fn inventory: %s: unbalanced braces" % fn)
+                if depth == 0:
+                    hdr = re.sub(r"#\[[^\]]*\]", " ", s[hdr_a:body_a])
+                    hdr = re.sub(r"\s+", " ", hdr).strip()
+                    hdr = hdr.split(";")[-1].strip()          # `use ..;` / `const ..;` lines before the item
+                    body = s[hdr_a:i + 1]
+                    fns = re.findall(r"\bfn\s+(?:r#)?(\w+)", body)
+                    la = s.count("\n", 0, body_a) + 1; lb = s.count("\n", 0, i) + 1
+                    scanned = any(a <= la and lb <= b for a, b in spans)
+                    partly = any(not (b < la or lb < a) for a, b in spans)
+                    if partly and not scanned:
+                        die("fn inventory: %s: item %r is only partly inside a scanned block" % (fn, hdr))
+                    if fns or re.match(r"(?:pub(?:\([^)]*\))?\s+)?(?:unsafe\s+)?(?:impl|trait|macro_rules!)", hdr):
+                        out.append((fn, hdr, fns, scanned))
+                    start = i + 1
+            elif c == ";" and depth == 0:
+                start = i + 1
+            i += 1
+        if depth != 0:
+            die("fn inventory: %s: unbalanced braces" % fn)
+    if len(out) < 40:
+        die("fn inventory: too few items found")
+    return out
+
+def gen_thrift_fns(repo):
+    items = thrift_items(repo)
+    out = ["(* GENERATED by tools/extract.py (gen_thrift_fns) from pilota/src/thrift/{%s} (test modules cut) -- do not edit." % ",".join(f[:-3] for f in THRIFT_FILES),
+           "   Every top-level item that is an impl / trait / macro or contains a fn: (file, header, fns in source order, scanned by the",
+           "   reader-site inventory?). *)",
+           "From Coq Require Import String List Bool.", "Import ListNotations.", "Open Scope string_scope.", "",
+           "Definition thrift_items : list (string * string * list string * bool) :=\n  [" +
+           ";\n   ".join("(%s, %s,\n    [%s], %s)" % (cq(f), coq_str(h), "; ".join(cq(x) for x in fns), "true" if sc else "false") for f, h, fns, sc in items) + "].", ""]
+    return "\n".join(out)
+
+GENERATORS = {"ThriftConsts.v": gen_thrift, "ReaderSites.v": gen_reader_sites, "PrimOps.v": gen_prim_ops, "TraitMethods.v": gen_trait_methods, "ThriftFns.v": gen_thrift_fns}
 
 
 def main():
